@@ -9,6 +9,7 @@ RAC = {
     'lexers': dict(crate=CORE, attach=S + 'lexing/mod.rs', file='lexing.rs', test='rac_lexers', function='lex_*'),
     'plain_english_tiles': dict(crate=CORE, attach=S + 'lexing/mod.rs', file='lexing.rs', test='rac_plain_english_tiles', function='PlainEnglish::parse'),
     'pattern_contract': dict(crate=CORE, attach=S + 'linting/pattern_linter.rs', file='patterns.rs', test='rac_pattern_contract', function='Pattern::matches'),
+    'merged_union': dict(crate=CORE, attach=S + 'spell/merged_dictionary.rs', file='merged_dictionary.rs', test='rac_merged_union', function='MergedDictionary'),
 }
 # Verus piece name -> runtime contract checks that exercise the same clause on the real code
 RAC_FOR_FUNCTION = {
@@ -27,3 +28,17 @@ for _f in ('lex_regexish', 'lex_long_decade', 'lex_plural_digit', 'lex_quote', '
 for _t in ('Invert', 'SequencePattern', 'RepeatingPattern', 'EitherPattern', 'All', 'AnyPattern', 'ConsumesRemainingPattern', 'NominalPhrase',
            'ExactPhrase', 'IndefiniteArticle', 'PatternMap'):
     RAC_FOR_FUNCTION[_t + '::matches'] = ['pattern_contract']
+for _f in ('contains_word', 'contains_exact_word', 'get_correct_capitalization_of', 'get_word_metadata'):
+    RAC_FOR_FUNCTION['MergedDictionary::' + _f] = ['merged_union']
+
+# unit -> runtime contract checks to fall back on when the unit cannot be decided by Verus at all
+# (extraction anchor lost, construct unsupported after a rewrite): a concrete failing input found on
+# the real code is still a violation; no hit leaves the run undecided (exit 2).
+UNIT_RAC = {
+    'suggestion': ['suggestion_apply'],
+    'overlaps': ['remove_overlaps', 'remove_indices'],
+    'edit_distance': ['edit_distance'],
+    'lexing': ['lexers', 'plain_english_tiles'],
+    'patterns': ['pattern_contract'],
+    'merged_dictionary': ['merged_union'],
+}
